@@ -25,12 +25,21 @@ Junk(t) == {Delivery(t, {}, j) : j \in 1..JunkKinds}
 \* "single": every single-field mutation of every template and every junk variant, in every phase (exhaustive)
 \* "pairs":  a seeded sample of two-field mutations
 \* "seq":    sequences of up to MaxSeq (mutated) deliveries from a sample
+StateTemplates == {"reply", "notifySel", "write", "writeDelete", "usecaseReply", "discReply", "discNotifyAdd", "discNotifyFull"}
+FollowTemplates == {"read", "readSel", "reply", "notifySel", "write", "writeDelete", "usecaseReply", "subRequest", "bindDelete", "discNotifyRemove"}
 Cases ==
     CASE Mode = "single" -> {[phase |-> ph, seq |-> <<d>>] : ph \in Phases, d \in UNION {Singles(t) \cup Junk(t) \cup {Valid(t)} : t \in Templates}}
       [] Mode = "pairs"  -> {[phase |-> ph, seq |-> <<d>>] : ph \in Phases, d \in UNION {RandomSubset(Sample, Pairs(t)) : t \in Templates}}
       [] Mode = "seq"    -> {[phase |-> ph, seq |-> <<d1, d2>>] : ph \in Phases,
                                 d1 \in RandomSubset(Sample, UNION {Singles(t) : t \in Templates}),
                                 d2 \in RandomSubset(4, UNION {Singles(t) \cup {Valid(t)} : t \in Templates})}
+
+      \* "followup": every single-field mutation of a message that carries state (cached data, written data, use cases;
+      \*    thorough: the device tree as well) followed by every valid data message - what the first one left behind must
+      \*    not trip the handling of the second (exhaustive)
+      [] Mode = "followup" -> {[phase |-> ph, seq |-> <<d1, Valid(t2)>>] : ph \in Phases,
+                                d1 \in UNION {Singles(t) : t \in Templates \cap StateTemplates},
+                                t2 \in Templates \cap FollowTemplates}
 
 VARIABLES c, alive
 Init == c \in Cases /\ alive = TRUE
